@@ -296,7 +296,7 @@ def h03e(c, K=3):
     with lc.Recorder() as rec:
         # what the exchange had matched for the bet at the very write that reports the order complete
         rec.probe = lambda o: (world["ex"].bets[o.bet_id]["matched"], world["ex"].remaining(world["ex"].bets[o.bet_id])) if o.bet_id in world["ex"].bets else None
-        h11a(_Only(c, ("no-exception",)), K=K, on_world=lambda ex, fl, market: world.update(ex=ex), epilogue_fill=True)
+        h11a(_Only(c, ("no-exception", "reported-complete-by-the-stream")), K=K, on_world=lambda ex, fl, market: world.update(ex=ex), epilogue_fill=True)
     seen = []
     for (o, old, new, who) in rec.orders:
         if not any(o is x for x in seen):
